@@ -2,7 +2,7 @@
 (* Validates recorded static-file requests against StaticRange.tla: the observed response
    (status, Content-Range, Content-Length, body) must be one of the acceptable responses the
    specification computes for the logged size / Range text / validators.
-   {"id":n, "cfg":{"size":s,"k":k}, "ev":[{"a":"request","args":[m,hasRange,[chars],inm,ims],"obs":{..}}
+   {"id":n, "cfg":{"size":s,"k":k}, "ev":[{"a":"request","args":[m,hasRange,[chars],inm,ims,fmt],"obs":{..}}
                                           | {"a":"parse","args":[[chars]],"obs":{"ignored":b}}]} *)
 EXTENDS StaticRange, Json, IOUtils, TLCExt
 Traces == ndJsonDeserialize(IOEnv.TRACE_FILE)
@@ -16,7 +16,7 @@ TraceInit ==
 IsEvent(a) == l <= Len(Ev) /\ Ev[l].a = a /\ l' = l + 1 /\ UNCHANGED tid
 Bind == \E i \in 1..Len(Proj') : Proj'[i] = Ev[l].obs
 TrRequest == IsEvent("request")
-             /\ Request(Ev[l].args[1], Ev[l].args[2], Ev[l].args[3], Ev[l].args[4], Ev[l].args[5]) /\ Bind
+             /\ Request(Ev[l].args[1], Ev[l].args[2], Ev[l].args[3], Ev[l].args[4], Ev[l].args[5], Ev[l].args[6]) /\ Bind
 TrParse == IsEvent("parse") /\ Parse(Ev[l].args[1]) /\ Bind
 TraceNext == TrRequest \/ TrParse
 TraceSpec == TraceInit /\ [][TraceNext]_<<vars, step, tid, l>>
